@@ -31,7 +31,7 @@ import deeprob.spn.structure.cnet as CN
 from deeprob.spn.structure.cnet import BinaryCNet
 from deeprob.spn.learning.cnet_bayesian import learn_cnet_bd, learn_cnet_bic
 
-DRIVER = os.environ.get('DEEPROB_DRIVER', '/verif/lean/.lake/build/bin/driver')
+DRIVER = os.environ.get('DEEPROB_DRIVER', __import__('os').path.join(__import__('os').path.dirname(__import__('os').path.dirname(__import__('os').path.dirname(__import__('os').path.abspath(__file__)))), 'lean', '.lake', 'build', 'bin', 'driver'))
 
 
 def fstr(q):
